@@ -2,6 +2,7 @@ package main
 
 import (
 	"fmt"
+	"reflect"
 	"sort"
 	"strings"
 
@@ -117,6 +118,92 @@ func runC01(c *Ctx, r *Report, tier string) {
 		r.Check(a && b, "UNTOUCHED", sn, "struct pointer written back only when the scan allocated it and something was declared", c.ipos(in), "REQ(allocated) ∧ REQ(option/group count changed)", fmt.Sprintf("count-changed necessary=%v allocated necessary=%v", a, b))
 	}
 	r.Check(nWB == 1, "UNTOUCHED", sn, "pointer write-back site", c.pos(ss.Pos()), "one", fmt.Sprintf("%d", nWB))
+	// the count the write-back compares against is taken for THIS field: inside the field loop, before the nested scan
+	{
+		var rec []ssa.Instruction
+		for _, in := range c.instrs(ss, c.isCallTo("(*Group).scanStruct")) {
+			if in.Parent() == ss || c.actsFor(in.Parent(), ss) {
+				rec = append(rec, in)
+			}
+		}
+		loads := func(v ssa.Value) []ssa.Instruction {
+			var out []ssa.Instruction
+			var walk func(v ssa.Value, d int)
+			walk = func(v ssa.Value, d int) {
+				if d > 6 {
+					return
+				}
+				switch x := v.(type) {
+				case *ssa.BinOp:
+					walk(x.X, d+1)
+					walk(x.Y, d+1)
+				case *ssa.Call:
+					for _, a := range x.Call.Args {
+						walk(a, d+1)
+					}
+				case *ssa.UnOp:
+					out = append(out, x)
+				}
+			}
+			walk(v, 0)
+			return out
+		}
+		nCmp := 0
+		for _, b := range c.blocks(ss) {
+			iff, ok := b.Instrs[len(b.Instrs)-1].(*ssa.If)
+			if !ok {
+				continue
+			}
+			bo, ok := iff.Cond.(*ssa.BinOp)
+			if !ok || !(strings.Contains(c.term(bo), "len(Group.options(P0))") && strings.Contains(c.term(bo), "len(Group.groups(P0))")) {
+				continue
+			}
+			nCmp++
+			var fieldLoop *Loop
+			for _, l := range c.loopsDeep(ss) {
+				if l.Blocks[b] && (fieldLoop == nil || len(l.Blocks) < len(fieldLoop.Blocks)) {
+					fieldLoop = l
+				}
+			}
+			after := func(ld ssa.Instruction) bool { // executed after a nested scan of the same iteration
+				for _, rc := range rec {
+					q := &PathQ{c: c, Fn: ss, NoBack: true}
+					s := siteOf(rc)
+					if _, found := q.Reach(Site{s.B, s.I + 1}, 0, isInstr(ld)); found {
+						return true
+					}
+				}
+				return false
+			}
+			nBefore, nAfter, okIn := 0, 0, true
+			for _, side := range []ssa.Value{bo.X, bo.Y} {
+				ls := loads(side)
+				if len(ls) == 0 {
+					continue
+				}
+				isAfter := false
+				for _, ld := range ls {
+					if after(ld) {
+						isAfter = true
+					}
+				}
+				if isAfter {
+					nAfter++
+					continue
+				}
+				nBefore++
+				for _, ld := range ls {
+					if fieldLoop == nil || !fieldLoop.Blocks[ld.Block()] {
+						okIn = false
+					}
+				}
+			}
+			r.Check(nBefore == 1 && nAfter == 1 && okIn, "UNTOUCHED", sn, "declaration count compared with its value before this field's scan", c.ipos(iff), "one side is read after the nested scanStruct, the other before it in the same iteration of the field loop", fmt.Sprintf("sides read before the nested scan=%d, after=%d, the earlier one taken inside the field loop=%v: an untagged nil struct pointer can stay allocated because of declarations made by other fields", nBefore, nAfter, okIn))
+		}
+		if nCmp == 0 {
+			r.Fail("UNTOUCHED", sn, "declaration count comparison", c.pos(ss.Pos()), "not found")
+		}
+	}
 
 	// ---- ONCE
 	pon := c.fname(po)
@@ -210,6 +297,19 @@ func runC01(c *Ctx, r *Report, tier string) {
 		}
 	}
 	r.Check(okIn, "REARM", c.fname(eo), "every nested group's options are visited", c.pos(eo.Pos()), "eachGroup inside the per-command closure", "eachOption does not descend into nested groups")
+
+	// the first occurrence replaces the previous contents of slices AND maps: Set empties both kinds when armed
+	if set := c.Fn("(*Option).Set"); set != nil {
+		nE := 0
+		for _, in := range c.instrs(set, c.isCallTo("(*Option).empty")) {
+			nE++
+			got := kindNames(c.kindsAt(in, "V:Option.value(P0)"))
+			want := kindNames([]int64{int64(reflect.Map), int64(reflect.Slice)})
+			_, armed := c.Requires(set, isInstr(in), litIs("Option.clearReferenceBeforeSet(P0)", true), nil)
+			r.Check(got == want && armed, "REARM", c.fname(set), "armed Set empties maps and slices", c.ipos(in), "empty() reachable for exactly {"+want+"} under clearReferenceBeforeSet", "empty() is reached for kinds {"+got+"} (armed necessary="+fmt.Sprint(armed)+"): the previous contents of the other reference kind survive the first occurrence")
+		}
+		r.Check(nE == 1, "REARM", c.fname(set), "one emptying site in Set", c.pos(set.Pos()), "one", fmt.Sprintf("%d", nE))
+	}
 
 	// ---- STORE (shared shape rules)
 	cn := c.fname(cv)
